@@ -1,5 +1,7 @@
 """C17 — the file-system backend never leaves its root nor crosses bucket boundaries.
-Deciding part: Kani/CBMC harnesses on the PATH COMPUTATION (FileSystem::resolve_abs_path / get_object_path / get_bucket_path /
+Deciding parts: rsx + z3 on the bucket guard (C17sym.py: get_object_path / resolve_abs_path executed on keys of symbolic shape,
+std::path + path-dedot + path-absolutize as a library model validated key by key on the real backend); Kani/CBMC harnesses on
+the compiled PATH COMPUTATION for concrete keys (FileSystem::resolve_abs_path / get_object_path / get_bucket_path /
 get_metadata_path / get_internal_info_path / resolve_upload_part_path with path-absolutize compiled, kani/specs/C17.json).
 Closing the gap to the operations: a path-provenance pass over s3.rs / fs.rs (C17flow.py: every file-system call takes its
 path from those constructors; solver-free, labelled) whose deviations count only when the native probe reproduces them, and
@@ -14,6 +16,7 @@ import json
 sys.path.insert(0, os.path.dirname(os.path.abspath(__file__)))
 from vlib import kspec, replay, BUILD, Inconclusive  # noqa: E402
 import C17flow  # noqa: E402
+import C17sym  # noqa: E402
 
 LEVEL = "model_checking"
 
@@ -51,6 +54,11 @@ def probe_obligation(rep):
 
 
 def run(rep, tier):
+    rep.engines["z3"] = __import__("z3").get_version_string()
+    try:
+        C17sym.check(rep, tier)
+    except Inconclusive as e:
+        rep.fail_inconclusive("symbolic bucket guard: %s" % e)
     rep.encoded("crates/s3s-fs/src/fs.rs", "FileSystem path computation (Kani)")
     res = kspec.run_spec(rep, "C17", tier, budget_s=400)
     if not res:
